@@ -1,6 +1,6 @@
 (** C15: the lemmas behind the property theorems (Props/C15.v). *)
 From Coq Require Import ZArith List Bool Lia.
-From SpyneV Require Import C15.Spec C15.OdictProofs C15.StoreProofs C15.OpProofs C15.EvoProofs.
+From SpyneV Require Import C15.Spec C15.OdictProofs C15.StoreProofs C15.OpProofs C15.EvoProofs C15.DecimalProofs C15.FieldsProofs.
 Import ListNotations.
 Open Scope Z_scope.
 
@@ -411,4 +411,153 @@ Proof.
   - congruence.
   - destruct E; congruence.
   - rewrite F in X. contradiction.
+Qed.
+
+(** * the attributes of a class made by customize_plain, seen in any later store
+    that only extended the one customize_plain returned *)
+Lemma resolve_after : forall s c kw s0 n s',
+  inv s -> customize_plain s c kw = ROk (s0, n) -> ext (size s) s0 s' ->
+  exists r r',
+    lookup s c = Some r /\ n = size s /\ lookup s' n = Some r' /\
+    c_kind r' = c_kind r /\ c_base r' = Some c /\ c_orig r' = Some (root_of s c) /\
+    forall fuel k, resolve_f (S fuel) (cl s') n k = fresh_lookup s c kw fuel k.
+Proof.
+  intros s c kw s0 n s' I Q X0.
+  pose proof (customize_plain_derived _ _ _ _ _ Q) as [_ [_ [D3 _]]].
+  assert (X : ext (size s) s s') by (eapply ext_trans; eauto).
+  destruct (customize_plain_shape _ _ _ _ _ Q) as [r [t0 [tnm [L [K [T [N S0]]]]]]].
+  cbv zeta in S0. subst n.
+  set (r0 := mkcls (c_kind r) (Some c) (apply_kwargs kw (fresh_attrs s c)) (Some tnm)
+                   (Some (orig_or_self r c)) (Some (get_extends s c)) (c_fields r)) in *.
+  assert (L0 : lookup s0 (size s) = Some r0).
+  { subst s0. destruct (c =? CID_COMPLEXMODEL);
+      [| rewrite lookup_add_variant]; rewrite lookup_set_dca; apply lookup_alloc_new. }
+  destruct X0 as [_ [_ [X0 _]]]. destruct (X0 _ _ L0) as [r' [L' [S1 [S2 [S3 S4]]]]].
+  exists r, r'. split; [exact L | split; [reflexivity | split; [exact L' |]]].
+  split; [rewrite S1; reflexivity | split; [rewrite S2; reflexivity | split]].
+  - rewrite S4. unfold r0. simpl. unfold root_of. rewrite L. reflexivity.
+  - intros. rewrite (resolve_unfold _ _ _ _ r') by exact L'.
+    rewrite S3, S2. unfold r0. cbn [c_attrs c_base].
+    rewrite zassoc_apply_kwargs. unfold fresh_lookup.
+    destruct (requested k kw); [reflexivity |]. rewrite zassoc_fresh_attrs.
+    assert (AG : resolve_f fuel (cl s') c k = resolve_f fuel (cl s) c k).
+    { destruct I as [W _]. destruct X as [_ [XB _]].
+      apply (resolve_agree (cl s) _ (fun x => 0 <= x < size s)).
+      - intros. apply (XB x H).
+      - apply wf_closed. exact W.
+      - eapply lookup_some; eauto. }
+    rewrite AG.
+    destruct (k =? K_EXPLICIT_TN); [reflexivity |].
+    destruct (k =? K_NULLABLE) eqn:E; reflexivity.
+Qed.
+
+(** * Mandatory(): the new class is mandatory *)
+Definition mandatory_kw (tnm : tn) : kwargs :=
+  [(K_MIN_OCCURS, VInt 1); (K_NULLABLE, VBool false)]
+  ++ match tnm with TEmpty => [] | TStr x => [(K_TYPE_NAME, VStr (t_Mandatory ++ x))] end.
+
+Lemma mandatory_kw_requests : forall tnm extra,
+  (extra = [] \/ extra = [(K_MIN_LEN, VInt 1)]) ->
+  requested K_MIN_OCCURS (mandatory_kw tnm ++ extra) = Some (VInt 1) /\
+  requested K_NULLABLE (mandatory_kw tnm ++ extra) = Some (VBool false) /\
+  NoDup (map fst (mandatory_kw tnm ++ extra)).
+Proof.
+  intros tnm extra [E | E]; subst extra; destruct tnm; unfold mandatory_kw; simpl;
+    (split; [reflexivity | split; [reflexivity |]]);
+    repeat (constructor; [simpl; intuition discriminate |]); constructor.
+Qed.
+
+Lemma mandatory_attrs : forall fuel s c s' n,
+  inv s -> mandatory fuel s c = ROk (s', n) ->
+  forall f, resolve_f (S f) (cl s') n K_MIN_OCCURS = Some (VInt 1) /\
+            resolve_f (S f) (cl s') n K_NULLABLE = Some (VBool false).
+Proof.
+  intros fuel s c s' n I H f. destruct fuel; [discriminate |]. simpl in H.
+  destruct (lookup s c) as [r |] eqn:L; try discriminate.
+  destruct (get_tname s c) as [tnm |]; try discriminate.
+  fold (mandatory_kw tnm) in H.
+  assert (PLAIN : forall s1, customize_plain s c (mandatory_kw tnm) = ROk (s1, n) -> ext (size s) s1 s' ->
+            resolve_f (S f) (cl s') n K_MIN_OCCURS = Some (VInt 1) /\
+            resolve_f (S f) (cl s') n K_NULLABLE = Some (VBool false)).
+  { intros s1 Q X. destruct (resolve_after _ _ _ _ _ _ I Q X) as [_ [_ [_ [_ [_ [_ [_ [_ R]]]]]]]].
+    rewrite !R. unfold fresh_lookup.
+    destruct (mandatory_kw_requests tnm [] (or_introl eq_refl)) as [A [B _]].
+    rewrite app_nil_r in A, B. rewrite A, B. split; reflexivity. }
+  destruct (c_kind r) as [fam | |].
+  - (* a primitive *)
+    assert (SIMPLE : forall extra, (extra = [] \/ extra = [(K_MIN_LEN, VInt 1)]) ->
+              customize_simple s c (mandatory_kw tnm ++ extra) = ROk (s', n) ->
+              resolve_f (S f) (cl s') n K_MIN_OCCURS = Some (VInt 1) /\
+              resolve_f (S f) (cl s') n K_NULLABLE = Some (VBool false)).
+    { intros extra EX Q. destruct I as [W _].
+      destruct (fresh_simple _ _ _ _ _ W Q) as [r1 [fam1 [kw1 [r' [_ [_ [D [_ [_ [_ [_ [_ [_ R]]]]]]]]]]]]].
+      destruct (mandatory_kw_requests tnm extra EX) as [A [B ND]].
+      assert (RQ : requested K_MIN_OCCURS kw1 = Some (VInt 1) /\ requested K_NULLABLE kw1 = Some (VBool false)).
+      { destruct fam1; try (inversion D; subst kw1; split; assumption).
+        destruct (decimal_keywords _ _ _ _ D ND) as [KK _].
+        rewrite (KK K_MIN_OCCURS), (KK K_NULLABLE) by discriminate. split; assumption. }
+      destruct RQ as [RA RB]. rewrite !R. unfold fresh_lookup. rewrite RA, RB. split; reflexivity. }
+    destruct fam.
+    + apply (SIMPLE []); [left; reflexivity | rewrite app_nil_r; exact H].
+    + apply (SIMPLE [(K_MIN_LEN, VInt 1)]); [right; reflexivity | exact H].
+    + apply (SIMPLE []); [left; reflexivity | rewrite app_nil_r; exact H].
+    + apply (SIMPLE []); [left; reflexivity | rewrite app_nil_r; exact H].
+  - apply (PLAIN s'); [exact H | apply ext_refl].
+  - destruct (c_fields r) as [| [k v] rest]; try discriminate.
+    destruct rest; try discriminate.
+    destruct (is_v (resolve s v K_MIN_OCCURS) (VInt 0)).
+    + rdesp H as s1 n1 Q1. rdesp H as s2 v' Q2. inversion H; subst. clear H.
+      pose proof (customize_plain_derived _ _ _ _ _ Q1) as [D1 [D2 [D3 [D4 D5]]]]. subst n.
+      destruct (mandatory_ok _ _ _ _ _ (D4 I) Q2) as [A1 [A2 [A3 [A4 A5]]]].
+      apply (PLAIN s1); [exact Q1 |].
+      eapply ext_trans; [eapply ext_weaken; [| apply A4]; lia |].
+      apply ext_upd; [lia | intros; apply static_set_fields].
+    + apply (PLAIN s'); [exact H | apply ext_refl].
+Qed.
+
+(** * Array(T, **kw): one member, whose type is T or a class customized from T;
+    the array class carries kw over the attributes of Array / Iterable *)
+Lemma array_shape : forall s base t kw s' n,
+  inv s -> make_array s base t kw = ROk (s', n) ->
+  exists member ser,
+    fields_of s' n = [(member, ser)] /\ root_of s' ser = root_of s t /\
+    forall f k, resolve_f (S f) (cl s') n k = fresh_lookup s base kw f k.
+Proof.
+  unfold make_array. intros s base t kw s' n I H.
+  destruct (lookup s base) as [rb |] eqn:Lb; try discriminate.
+  destruct (lookup s t) as [rt |] eqn:Lt; try discriminate.
+  destruct (c_kind rb); try discriminate.
+  destruct (c_fields rb); try discriminate.
+  destruct (c_orig rb); try discriminate.
+  destruct (match c_kind rt, c_fields rt with KArray, [_] => false | KArray, _ => true | _, _ => false end);
+    try discriminate.
+  rdesp H as s1 a Q1.
+  pose proof (customize_plain_derived _ _ _ _ _ Q1) as D.
+  destruct D as [D1 [D2 [D3 [D4 D5]]]]. subst a. pose proof (D4 I) as I1.
+  pose proof (size_nonneg s) as NN. pose proof (lookup_some _ _ _ Lt) as Bt.
+  destruct (get_tname s1 t) as [tnm |]; try discriminate.
+  destruct (match tnm with TEmpty => (t_OhNoes, TEmpty) | TStr x => (x, TStr (x ++ t_Array)) end)
+    as [member atn].
+  rdesp H as s2 ser Q2. inversion H; subst. clear H.
+  assert (P : ext (size s) s1 s2 /\ root_of s2 ser = root_of s t /\ ref_ok (size s2) ser /\ size s1 <= size s2).
+  { assert (R1 : root_of s1 t = root_of s t) by (eapply root_of_ext; eauto).
+    destruct (is_v (resolve s1 t K_MAX_OCCURS) (VInt 1)).
+    - pose proof (customize_any_derived _ _ _ _ _ Q2) as D.
+      pose proof (derived_valid _ _ _ _ D) as V. destruct D as [E1 [E2 [E3 [E4 E5]]]].
+      split; [eapply ext_weaken; [| apply E3]; lia | split; [congruence | split; [exact V | lia]]].
+    - inversion Q2; subst.
+      split; [apply ext_refl | split; [exact R1 | split; [unfold ref_ok; lia | lia]]]. }
+  destruct P as [X2 [R2 [V2 Z2]]].
+  set (f := fun r : cls => set_tname
+              match zassoc K_TYPE_NAME kw with Some (VStr x) => TStr x | _ => atn end
+              (set_fields [(member, ser)] r)).
+  assert (SF : forall r, static_eq r (f r)) by (intros; unfold f, static_eq; simpl; auto).
+  destruct (lookup_lt_some s2 (size s)) as [r2 L2]; [lia |].
+  exists member, ser. split; [| split].
+  - unfold fields_of. rewrite (lookup_upd_same _ _ f _ L2). reflexivity.
+  - rewrite <- R2. destruct (lookup_lt_some s2 ser V2) as [rs Ls].
+    eapply root_of_upd_fields; eauto.
+  - assert (X : ext (size s) s1 (upd s2 (size s) f)).
+    { eapply ext_trans; [apply X2 |]. apply ext_upd; [lia | exact SF]. }
+    destruct (resolve_after _ _ _ _ _ _ I Q1 X) as [_ [_ [_ [_ [_ [_ [_ [_ R]]]]]]]]. exact R.
 Qed.
